@@ -294,7 +294,12 @@ def sweep_nf(ctx, chk, rule, qual, fields, kernel_meth, domain_is_param):
             chk.violation(rule, fwhere, "the change measure takes the minimum over the sweep", expected="max", found="min",
                           construct="%s change measure" % f.short)
         else:
-            chk.undecided(rule, fwhere, "change measure not recognised as MAX fold: %s" % (fo,))
+            wl = _worklist_sweep_flaw(F)
+            if wl:
+                chk.violation(rule, fwhere, wl, expected="a state is taken off the worklist before (not after) the states that depend on it are put on it",
+                              found=norm_stmt(F.node), construct="%s worklist sweep order" % f.short)
+            else:
+                chk.undecided(rule, fwhere, "change measure not recognised as MAX fold: %s" % (fo,))
         return None
     if not (is_const(fo.init) and fo.init[1] == 0):
         chk.violation(rule, fwhere, "the per-sweep maximum starts from `%s` instead of being reset to 0 in each sweep: once large, the change never decreases / or changes are under-reported" % show(fo.init),
@@ -306,6 +311,34 @@ def sweep_nf(ctx, chk, rule, qual, fields, kernel_meth, domain_is_param):
                       expected="every state of the domain is updated in every sweep", found=norm_stmt(F.node), construct="%s sweep partial" % f.short)
         return None
     return dict(f=f, sx=sx, W=W, F=F, fold=fo, where=fwhere, dvar=dvar)
+
+
+def _worklist_sweep_flaw(F):
+    """A sweep that only re-evaluates the states on a worklist (`if s not in pending: continue`): when the step that puts the
+    dependants of a changed state on the worklist comes BEFORE the step that takes the state itself off, a state that depends
+    on itself (a self-loop) removes the mark it has just received and is never evaluated again - its value freezes after one
+    step.  Returns the explanation, or None when the loop is not of that shape / has the safe order."""
+    node = F.node
+    if not isinstance(node, ast.For):
+        return None
+    adds, drops = [], []
+    for st in ast.walk(node):
+        if isinstance(st, ast.Expr) and isinstance(st.value, ast.Call) and isinstance(st.value.func, ast.Attribute) and isinstance(st.value.func.value, ast.Name):
+            m, recv = st.value.func.attr, st.value.func.value.id
+            if m in ("update", "add", "extend", "append"):
+                adds.append((recv, st))
+            elif m in ("discard", "remove"):
+                drops.append((recv, st))
+    for recv, d in drops:
+        same = [a for r_, a in adds if r_ == recv]
+        # the set is also what decides whether a state is skipped
+        tested = any(isinstance(c, ast.Compare) and any(isinstance(o, (ast.In, ast.NotIn)) for o in c.ops) and any(isinstance(x, ast.Name) and x.id == recv for x in c.comparators)
+                     for c in ast.walk(node))
+        if same and tested and all((a.lineno, a.col_offset) < (d.lineno, d.col_offset) for a in same):
+            return ("the sweep re-evaluates only the states in `%s`; within one step the dependants of a changed state are put on it (`%s`) BEFORE the state itself is taken off (`%s`): "
+                    "a state with a transition to itself loses the mark it has just received and is never evaluated again, so its value stops after one step" % (
+                        recv, norm_stmt(same[0]), norm_stmt(d)))
+    return None
 
 
 def _subterms(t):
@@ -432,6 +465,7 @@ def _is_log(st):
 def run(ctx, chk):
     r1_kernels(ctx, chk)
     r2_start(ctx, chk)
+    shared.rule_node_keeps_transitions(ctx, chk, "C01.2")
     r3_writers(ctx, chk)
     r4_sweep(ctx, chk)
     r5_flag(ctx, chk)
